@@ -387,6 +387,10 @@ class Facts:
         self.renamed = renames.undo_renames(self.j, renames.load_signatures()) if use_inliner else {}
         self.folded = sum(inline.fold_const_switches(b) for b in self.j["bodies"])
         self.inlined = inline.inline_helpers(self.j["bodies"], inline.load_known()) if use_inliner else {}
+        if use_inliner:
+            for b_ in self.j["bodies"]:
+                if b_.get("inlined"):
+                    inline.devirtualise(b_)
         from . import normalize
         import os as _os
         self.combinators = normalize.normalise_combinators(self.j["bodies"], self.j.get("adts"), cli=(self.j.get("crate") == "jp")) if use_inliner and not _os.environ.get("VERIF_NO_NORMALISE") else 0
